@@ -104,6 +104,7 @@ def judgeUpsert (st : St) (impl : Option String) (id : Nat) (addr : String) (eff
     match parseDump line with
     | none => (st, "viol:malformed:cannot parse the bucket dump")
     | some rd =>
+      let before := st.obs
       let obs := mergeObs st.obs rd
       let st := { st with obs := obs }
       let self := C07Spec.toNat st.table.self
@@ -114,6 +115,8 @@ def judgeUpsert (st : St) (impl : Option String) (id : Nat) (addr : String) (eff
           (st, "viol:newest:the registered contact is missing, duplicated or lacks the new address/expiry")
         else if !decide (C07Spec.Newest st.log obs) then
           (st, "viol:newest:a held contact differs from the last registration of its id")
+        else if !decide (C07Spec.Retained self before obs st.now id) then
+          (st, "viol:retained:an unexpired contact lost its place although no new id overflowed its bucket")
         else (st, "ok")
 
 def judgeDump (st : St) (impl : Option String) (isSweep : Bool) : St × String :=
@@ -134,6 +137,8 @@ def judgeDump (st : St) (impl : Option String) (isSweep : Bool) : St × String :
           (st, "viol:newest:a held contact differs from the last registration of its id")
         else if isSweep && !decide (C07Spec.SweepKeeps before (C07Spec.entries rd) st.now) then
           (st, "viol:sweep:the sweep removed an unexpired contact or added one")
+        else if !isSweep && !decide (C07Spec.NothingLost before (C07Spec.entries rd) st.now) then
+          (st, "viol:retained:an unexpired contact reported earlier is no longer held")
         else (st, "ok")
 
 def judgeClosest (st : St) (impl : Option String) (target : Nat) (k : Nat) : String :=
